@@ -16,7 +16,7 @@ cp $OUT/$DEMO $WT/$DEST
 echo "demo on HEAD rc=$CLEAN (want 0); build rc=$BUILD; demo with patch rc=$PATCHED (want !=0)"
 rm -f $WT/$DEST
 T0=$(date +%s)
-VERIF_REPO=$WT VERIF_OUT=/tmp/svout-$PROP-$VAR ${SCALE:+VERIF_SCALE=$SCALE} /verif/check $PROP --tier $TIER > /tmp/sv-$PROP-$VAR.check.log 2>&1; CHECK=$?
+env VERIF_REPO=$WT VERIF_OUT=/tmp/svout-$PROP-$VAR ${SCALE:+VERIF_SCALE=$SCALE} /verif/check $PROP --tier $TIER > /tmp/sv-$PROP-$VAR.check.log 2>&1; CHECK=$?
 T1=$(date +%s)
 grep -E "VIOLATION|INCONCLUSIVE|tier=" /tmp/sv-$PROP-$VAR.check.log | head -4
 echo "check rc=$CHECK ($TIER, $((T1-T0))s)"
